@@ -83,20 +83,79 @@ func (e *Engine) verifyFunction(fn *ssa.Function, opt *Options) *FuncResult {
 		}
 		return res
 	}
-	// axioms of the spec library
-	var axioms strings.Builder
+	// axioms of the spec library. An axiom whose trigger mentions a specification function that occurs nowhere in this
+	// function's script (nor in an axiom that is kept) can never be instantiated here: it is left out (fewer hypotheses are
+	// always sound; it keeps vocabularies the function does not use - TLV8, little-endian bytes, ... - out of the search).
+	type axText struct {
+		name, text string
+		patSyms  []string
+		bodySyms []string
+		used     bool
+	}
+	var axs []*axText
 	for _, ax := range e.specs.Axioms {
-		if ax.Raw != "" {
-			fmt.Fprintf(&axioms, "(assert %s)\n", ax.Raw)
-			continue
+		term := ax.Raw
+		if term == "" {
+			env := &senv{t: t, vars: map[string]*sv{}, lets: map[string]ast.Expr{}}
+			var err error
+			term, err = t.evalAssume(ax.Expr, env, t.oldHeaps, t.oldHeaps)
+			if err != nil {
+				res.Fatal = append(res.Fatal, fmt.Sprintf("axiom %s: %v", ax.Name, err))
+				continue
+			}
 		}
-		env := &senv{t: t, vars: map[string]*sv{}, lets: map[string]ast.Expr{}}
-		term, err := t.evalAssume(ax.Expr, env, t.oldHeaps, t.oldHeaps)
-		if err != nil {
-			res.Fatal = append(res.Fatal, fmt.Sprintf("axiom %s: %v", ax.Name, err))
-			continue
+		a := &axText{name: ax.Name, text: term}
+		pats := ""
+		for _, m := range rePatternPart.FindAllString(term, -1) {
+			pats += m
 		}
-		fmt.Fprintf(&axioms, "(assert %s)\n", term)
+		a.patSyms = uniq(reSpecSym.FindAllString(pats, -1))
+		a.bodySyms = uniq(reSpecSym.FindAllString(term, -1))
+		axs = append(axs, a)
+	}
+	scriptText := t.decls.String() + t.out.String()
+	for _, o := range t.obls {
+		scriptText += o.Guard + " " + o.Goal + "\n"
+	}
+	present := map[string]bool{}
+	for _, sy := range reSpecSym.FindAllString(scriptText, -1) {
+		present[sy] = true
+	}
+	for changed := true; changed; {
+		changed = false
+		for _, a := range axs {
+			if a.used {
+				continue
+			}
+			ok := true
+			for _, sy := range a.patSyms {
+				if !present[sy] {
+					ok = false
+				}
+			}
+			if len(a.patSyms) == 0 {
+				// no specification function in the trigger (or no trigger): relevant if it shares a symbol with the script
+				ok = len(a.bodySyms) == 0
+				for _, sy := range a.bodySyms {
+					if present[sy] {
+						ok = true
+					}
+				}
+			}
+			if ok {
+				a.used = true
+				changed = true
+				for _, sy := range a.bodySyms {
+					present[sy] = true
+				}
+			}
+		}
+	}
+	var axioms strings.Builder
+	for _, a := range axs {
+		if a.used {
+			fmt.Fprintf(&axioms, "(assert %s)\n", a.text)
+		}
 	}
 	body := t.decls.String() + axioms.String() + t.out.String()
 	// axioms-only consistency probe: the specification vocabulary (prelude + every axiom) must not be contradictory by
@@ -224,6 +283,9 @@ func cmdVerify(args []string) int {
 	fs := flag.NewFlagSet("verify", flag.ExitOnError)
 	commonFlags(fs, opt, &ov)
 	fs.Parse(args)
+	if sd := os.Getenv("VERIF_SEED"); sd != "" {
+		fmt.Sscanf(sd, "%d", &opt.Seed)
+	}
 	t0 := time.Now()
 	eng, err := loadRepo(opt.Repo, opt.Verif, parseOverlays(ov))
 	if err != nil {
@@ -772,3 +834,6 @@ func sliceForFrame(prefix, heap, goal string, minimal bool) string {
 	}
 	return sb.String()
 }
+
+var rePatternPart = regexp.MustCompile(`:pattern \([^\n]*?\)\)`)
+var reSpecSym = regexp.MustCompile(`\bsf_[A-Za-z0-9_]+\b`)
